@@ -19,6 +19,9 @@ pub fn atoms_c01() -> Vec<Node> {
         Node::lit("a"),
         Node::lit("b"),
         Node::lit("é"),
+        // a literal that is a meta-character: wherever it is re-serialised for a delegate it
+        // has to be quoted, or it turns into "any character"
+        Node::lit("."),
         Any(false),
         Node::class("[ab]"),
         Node::class("[^a]"),
@@ -45,6 +48,8 @@ pub fn reps_c01() -> Vec<(u32, Option<u32>, Mode)> {
         (2, None, Mode::Greedy),
         (0, None, Mode::Poss),
         (0, Some(1), Mode::Poss),
+        // `{0}`: the body (and its groups) can never take part
+        (0, Some(0), Mode::Greedy),
     ]
 }
 pub fn repeatable(n: &Node) -> bool {
@@ -103,7 +108,9 @@ impl Gen {
                         out.push(Repeat(b(c.clone()), lo, hi, m));
                     }
                 }
-                if self.cond {
+                // `(?(1))` with both branches empty IS the group-exists test in this crate, which
+                // the atom GroupExists(1) already covers; an always-true conditional has no spelling
+                if self.cond && c != Empty {
                     out.push(CondGroup(1, b(c.clone()), b(Empty)));
                 }
                 if self.common {
@@ -137,7 +144,7 @@ impl Gen {
                             }
                             out.push(Alt(v));
                         }
-                        if self.cond {
+                        if self.cond && !(*a == Empty && *bb == Empty) {
                             out.push(CondGroup(1, b(a.clone()), b(bb.clone())));
                             if *a != Empty && !matches!(a, Backref(_)) {
                                 out.push(CondExpr(b(a.clone()), b(bb.clone()), b(Empty)));
@@ -309,7 +316,11 @@ pub fn random_tree(rng: &mut Rng, budget: usize, cond: bool, groups_so_far: &mut
         12 => {
             let y = random_tree(rng, (budget - 1) / 2, cond, groups_so_far);
             let n = random_tree(rng, (budget - 1) / 2, cond, groups_so_far);
-            CondGroup(1 + rng.below((*groups_so_far).max(1) as u64) as usize, b(y), b(n))
+            let g = 1 + rng.below((*groups_so_far).max(1) as u64) as usize;
+            if y == Empty && n == Empty {
+                return GroupExists(g);
+            }
+            CondGroup(g, b(y), b(n))
         }
         _ => {
             let c = random_tree(rng, ((budget - 1) / 3).max(1), cond, groups_so_far);
